@@ -11,7 +11,8 @@ import (
 // F15 (C07/C01): fs.File.Sync marks the file "no longer new" *before* the
 // directory fsync.  If that first directory fsync fails (here: the directory
 // is briefly renamed away, so os.Open(dir) fails), the error is reported once,
-// but every later Sync skips the directory fsync and reports success: commits
+// but every later Sync skips the directory fsync and reports success (here even
+// while the directory is still unreachable): commits
 // into the new segment are then acknowledged although its directory entry was
 // never made durable.  (Under `strace -f -e trace=fsync,fdatasync` the second
 // Sync issues exactly one fsync, on the file.)
@@ -33,19 +34,19 @@ func TestF15DirSyncNotRetried(t *testing.T) {
 	if err := os.Rename(dir, moved); err != nil {
 		t.Fatal(err)
 	}
+	defer os.Rename(moved, dir)
 	err1 := f.Sync() // file fsync ok, directory fsync fails
-	if err := os.Rename(moved, dir); err != nil {
-		t.Fatal(err)
-	}
 	if err1 == nil {
 		t.Skip("could not make the directory fsync fail on this system")
 	}
 	if _, err := f.WriteAt([]byte("batch-2"), 8); err != nil {
 		t.Fatal(err)
 	}
+	// The directory is still unreachable, so a Sync that really retried the
+	// directory fsync must fail again.
 	err2 := f.Sync()
 	t.Logf("first Sync: %v; second Sync: %v", err1, err2)
 	if err2 == nil {
-		t.Errorf("F15 CONFIRMED: the only directory fsync attempt failed (%v), yet the next Sync reports success without retrying it", err1)
+		t.Errorf("F15 CONFIRMED: the only directory fsync attempt failed (%v), yet the next Sync reports success without attempting it again", err1)
 	}
 }
